@@ -1,6 +1,7 @@
 from __future__ import annotations
 
 import logging
+import threading
 from abc import ABC, abstractmethod
 from collections.abc import Sequence
 from time import sleep
@@ -524,6 +525,7 @@ class EnsembleServlet(Servlet):
         self._qouts = []
         self._uid_to_results = {}
         self._threads = []
+        self._stopping = threading.Event()
 
     def start(self, q_in, q_out):
         """
@@ -621,11 +623,13 @@ class EnsembleServlet(Servlet):
                     all_empty = False
                     v = q.get()
                     if v is None:
-                        qout.put(v)
-                        return
-                        # TODO: this is a little problematic---should we
-                        # wait for all ensemble members to see `None`, thus
-                        # "driving out" all regular work, before exiting?
+                        # A worker of this member has exited. Keep reading:
+                        # the other members (or fellow workers) may still be
+                        # writing results; if nobody read them, a process worker
+                        # could block on a full pipe and never exit.
+                        # The sentinel is passed on once `stop` has stopped all
+                        # the members; see below.
+                        continue
 
                     uid, y = v
                     # `y` can be an exception object or a regular result.
@@ -665,15 +669,25 @@ class EnsembleServlet(Servlet):
                         qout.put((uid, y))
 
             if all_empty:
+                if self._stopping.is_set():
+                    # All members have been stopped and their output drained.
+                    qout.put(None)
+                    return
                 sleep(0.005)  # TODO: what is a good duration?
 
     def stop(self):
         assert self._started
+        # Let the sentinel travel through `_enqueue` (which passes it on to every
+        # member) so that it follows the requests already received. If the members
+        # were stopped first, `_enqueue` could still be writing pending requests
+        # into a member's pipe that nobody reads any more, and block forever.
+        self._qin.put(None)
+        t_dequeue, t_enqueue = self._threads
+        t_enqueue.join()
         for s in self._servlets:
             s.stop()
-        self._qin.put(None)
-        for t in self._threads:
-            t.join()
+        self._stopping.set()
+        t_dequeue.join()
         self._reset()
         self._started = False
 
@@ -750,10 +764,11 @@ class SwitchServlet(Servlet):
 
     def stop(self):
         assert self._started
-        for s in self._servlets:
-            s.stop()
+        # See `EnsembleServlet.stop` about the order.
         self._qin.put(None)
         self._thread_enqueue.join()
+        for s in self._servlets:
+            s.stop()
         self._reset()
         self._started = False
 
